@@ -773,7 +773,20 @@ func minInt(a, b int) int {
 func c07Pair(c *fw.Ctx, r *rng.R, a, b *spec.Spec, desc string) {
 	in := func() string { return fmt.Sprintf("pair (%s)\n a = %s\n b = %s", desc, a.Canon(), b.Canon()) }
 	guard(c, in, func() {
-		ra, rb := drive.Build(r, a), drive.Build(r, b)
+		ra := drive.Build(r, a)
+		if r != nil && r.Chance(1, 25) {
+			// a lot happens between the construction of the two operands: thousands of other short strings, numbers and
+			// containers are made and dropped (whatever the library shares or remembers across values has turned over)
+			churn := at.NewList()
+			for j := 0; j < 9000; j++ {
+				churn.Add(fmt.Sprintf("s%05d", j), j, float64(j)+0.5)
+				if j%3000 == 2999 {
+					churn = at.NewList()
+				}
+			}
+			c.Count("pairs_with_churn_between_the_operands")
+		}
+		rb := drive.Build(r, b)
 		want := spec.Equal(a, b)
 		if want {
 			c.Count("equal_pairs")
